@@ -37,8 +37,8 @@ type c02Call struct {
 	Endian decode.Endian
 	// expectation
 	WantErr  bool
-	Want     any   // uint64, int64, *big.Int, float64 (with tolerance kind), string, bool
-	WantBits int64 // bits consumed
+	Want     any    // uint64, int64, *big.Int, float64 (with tolerance kind), string, bool
+	WantBits int64  // bits consumed
 	FloatTol string // "", "exact", "faithful" (either neighbour)
 	Class    string // signature class, e.g. "U:width37:align5"
 	OnlyPos  bool   // value outside the property's domain: only no-crash + position
@@ -581,18 +581,18 @@ func (r *c02Runner) floats(rng *gen.Rand, nRandom int) {
 			special = append(special, []byte{0x7f, 0xf0, 0, 0, 0, 0, 0, 0}, []byte{0xff, 0xf0, 0, 0, 0, 0, 0, 0}, []byte{0x7f, 0xf8, 0, 0, 0, 0, 0, 0}, []byte{0x3f, 0xf0, 0, 0, 0, 0, 0, 0}, []byte{0, 0x10, 0, 0, 0, 0, 0, 0})
 		case 80:
 			special = append(special,
-				[]byte{0x3f, 0xff, 0x80, 0, 0, 0, 0, 0, 0, 0},             // 1.0
-				[]byte{0xbf, 0xff, 0x80, 0, 0, 0, 0, 0, 0, 0},             // -1.0
-				[]byte{0x7f, 0xff, 0x80, 0, 0, 0, 0, 0, 0, 0},             // +inf
-				[]byte{0xff, 0xff, 0x80, 0, 0, 0, 0, 0, 0, 0},             // -inf
-				[]byte{0x7f, 0xff, 0xc0, 0, 0, 0, 0, 0, 0, 0},             // nan
+				[]byte{0x3f, 0xff, 0x80, 0, 0, 0, 0, 0, 0, 0},                      // 1.0
+				[]byte{0xbf, 0xff, 0x80, 0, 0, 0, 0, 0, 0, 0},                      // -1.0
+				[]byte{0x7f, 0xff, 0x80, 0, 0, 0, 0, 0, 0, 0},                      // +inf
+				[]byte{0xff, 0xff, 0x80, 0, 0, 0, 0, 0, 0, 0},                      // -inf
+				[]byte{0x7f, 0xff, 0xc0, 0, 0, 0, 0, 0, 0, 0},                      // nan
 				[]byte{0x40, 0x00, 0xc9, 0x0f, 0xda, 0xa2, 0x21, 0x68, 0xc2, 0x35}, // pi
 				[]byte{0x43, 0xfe, 0xff, 0xff, 0xff, 0xff, 0xff, 0xff, 0xf8, 0x00}, // max float64
-				[]byte{0x44, 0x00, 0x80, 0, 0, 0, 0, 0, 0, 0},             // 2^1025: overflows float64
+				[]byte{0x44, 0x00, 0x80, 0, 0, 0, 0, 0, 0, 0},                      // 2^1025: overflows float64
 				[]byte{0x7f, 0xfe, 0xff, 0xff, 0xff, 0xff, 0xff, 0xff, 0xff, 0xff}, // max extended
-				[]byte{0x3b, 0xcd, 0x80, 0, 0, 0, 0, 0, 0, 0},             // 2^-1074 (min subnormal float64)
-				[]byte{0x3b, 0x00, 0x80, 0, 0, 0, 0, 0, 0, 0},             // far below: underflows to 0
-				[]byte{0x00, 0x01, 0x80, 0, 0, 0, 0, 0, 0, 0},             // min normal extended
+				[]byte{0x3b, 0xcd, 0x80, 0, 0, 0, 0, 0, 0, 0},                      // 2^-1074 (min subnormal float64)
+				[]byte{0x3b, 0x00, 0x80, 0, 0, 0, 0, 0, 0, 0},                      // far below: underflows to 0
+				[]byte{0x00, 0x01, 0x80, 0, 0, 0, 0, 0, 0, 0},                      // min normal extended
 			)
 		}
 		var pats [][]byte
